@@ -14,7 +14,11 @@ old = json.load(open(sys.argv[1]))
 by_km = collections.defaultdict(list)
 for e in old["sites"]:
     k, m, o = e["key"].split("|", 2)
-    by_km[(k, m)].append((o, e))
+    if e.get("messages"):
+        for sub in e["messages"]:
+            by_km[(k, sub["msg"])].append((o, dict(sub, key=e["key"])))
+    else:
+        by_km[(k, m)].append((o, e))
 OWNER_FILE = {"print::printer": "print/printer.rs", "subtyping::bdd": "subtyping/bdd.rs", "subtyping::mapping": "subtyping/mapping.rs",
               "subtyping::to_schema::SchemerContext": "subtyping/to_schema.rs", "frontend::FrontendCtx": "frontend/mod.rs", "frontend": "frontend/mod.rs"}
 got = collections.defaultdict(list)
